@@ -39,8 +39,17 @@ def _model_digest(m):
 
 
 def _aper_digest(a):
-    return repr([(p, repr(np.asarray(getattr(a, p)).tolist()))
-                 for p in a._params])
+    out = []
+    for p in a._params:
+        v = getattr(a, p)
+        if type(v).__name__ == 'SkyCoord':
+            out.append((p, repr(v.ra.deg.tolist()), repr(v.dec.deg.tolist()),
+                        v.frame.name))
+        elif hasattr(v, 'unit'):
+            out.append((p, repr(np.asarray(v.value).tolist()), str(v.unit)))
+        else:
+            out.append((p, repr(np.asarray(v).tolist())))
+    return repr(out)
 
 
 def _digest_any(o):
@@ -271,11 +280,14 @@ class InputsMachine(Machine):
              'gini', 'cutout', 'ellipse', 'fit_gaussian', 'extract_stars',
              'segm_reads', 'sky_apertures', 'image_depth', 'gridded_model',
              'psf_model_image', 'idw', 'catalog_detcat', 'epsf_builder',
-             'epsf_star', 'ellipse_model',
+             'epsf_star', 'ellipse_model', 'bkg_estimators', 'psf_matching',
+             'other_apertures', 'region_convert', 'poisson_noise',
+             'grid_from_epsfs', 'make_psf_model', 'ellipse_sample',
+             'psf_models_phot', 'params_to_models',
              'actor_read', 'actor_read', 'actor_read']
     WEIGHTS = [3, 2, 3, 3, 1, 4, 2, 2, 4, 2, 2, 1, 1, 3, 3, 3, 2, 1, 1, 1, 2,
                1, 1, 0.3, 2, 1.5, 1.5, 1.5, 0.6, 1.5, 1, 1, 1.5, 0.4, 1.2,
-               0.6, 4, 4, 4]
+               0.6, 2, 1, 2, 1, 1, 1, 0.6, 1, 1.5, 1, 4, 4, 4]
 
     def next_op(self, rng, st):
         if st.nsteps >= rng.randint(3, 9) and st.nsteps >= 3:
@@ -902,6 +914,196 @@ class InputsMachine(Machine):
         il = P['isolist_unsorted'] if op['variant'] % 2 else P['isolist']
         return self._run(st, op, lambda: build_ellipse_model(
             (40, 40), il, high_harmonics=bool(op.get('opt', 0) % 2)))
+
+    def _s_bkg_estimators(self, st, op, data, mask, error):
+        from astropy.stats import SigmaClip
+        import photutils.background as pb
+        v, o = op['variant'], op.get('opt', 0)
+        cls = [pb.MeanBackground, pb.MedianBackground, pb.MMMBackground,
+               pb.SExtractorBackground, pb.BiweightLocationBackground,
+               pb.ModeEstimatorBackground, pb.StdBackgroundRMS,
+               pb.MADStdBackgroundRMS, pb.BiweightScaleBackgroundRMS][
+                   (v + 3 * (o % 3)) % 9]
+        est = cls(sigma_clip=SigmaClip(3.0) if o % 2 else None)
+        if mask is not None and not isinstance(data, np.ma.MaskedArray) \
+                and op['data'] != 'q':
+            arr = np.ma.MaskedArray(data, mask=mask)   # views caller arrays
+        else:
+            arr = data
+        return self._run(st, op, lambda: (
+            est(arr), est.calc_background(arr, axis=0)
+            if hasattr(est, 'calc_background')
+            else est.calc_background_rms(arr, axis=0)))
+
+    def _s_psf_matching(self, st, op, data, mask, error):
+        from photutils.psf.matching import (CosineBellWindow, HanningWindow,
+                                            SplitCosineBellWindow,
+                                            TopHatWindow, TukeyWindow,
+                                            create_matching_kernel,
+                                            resize_psf)
+        P = st.P
+        v = op['variant']
+        win = [None, CosineBellWindow(0.5), HanningWindow(),
+               SplitCosineBellWindow(0.4, 0.3), TopHatWindow(0.5),
+               TukeyWindow(0.4)][v]
+        if 'psfimg2' not in P:
+            P['psfimg2'] = scenes.gaussians((13, 13), [(6, 6, 1.0, 2.0, 2.0,
+                                                        0)])
+            st.d0['psfimg2'] = _digest_any(P['psfimg2'])
+        return self._run(st, op, lambda: (
+            create_matching_kernel(P['psfimg'], P['psfimg2'], window=win),
+            resize_psf(P['psfimg'], 0.1, 0.05 + 0.05 * (v % 2))))
+
+    def _s_other_apertures(self, st, op, data, mask, error):
+        import astropy.units as u
+        import photutils.aperture as pa
+        from simphot.machines.catalog import _wcs
+        P = st.P
+        v, o = op['variant'], op.get('opt', 0)
+        pos = np.column_stack([P['xpos'], P['ypos']])
+        if 'aper_more0' not in P:
+            w = _wcs((30, 32))
+            sky = w.pixel_to_world(P['xpos'], P['ypos'])
+            more = [
+                pa.EllipticalAperture(pos.copy(), 4.0, 2.0, theta=0.4),
+                pa.EllipticalAnnulus(pos.copy(), 2.0, 5.0, 3.0, theta=1.0),
+                pa.RectangularAperture(pos.copy(), 5.0, 3.0, theta=0.2),
+                pa.RectangularAnnulus(pos.copy(), 3.0, 6.0, 4.0, theta=0.7),
+                pa.SkyEllipticalAperture(sky, 3 * u.arcsec, 2 * u.arcsec,
+                                         theta=10 * u.deg),
+                pa.SkyCircularAnnulus(sky, 2 * u.arcsec, 4 * u.arcsec),
+                pa.SkyRectangularAperture(sky, 3 * u.arcsec, 2 * u.arcsec),
+                pa.SkyEllipticalAnnulus(sky, 2 * u.arcsec, 4 * u.arcsec,
+                                        3 * u.arcsec),
+                pa.SkyRectangularAnnulus(sky, 2 * u.arcsec, 4 * u.arcsec,
+                                         3 * u.arcsec)]
+            for k, a in enumerate(more):
+                P[f'aper_more{k}'] = a
+                st.d0[f'aper_more{k}'] = _digest_any(a)
+        aper = st.P[f'aper_more{(v + o) % 9}']
+        w = _wcs((30, 32))
+
+        def fn():
+            if (v + o) % 9 >= 4:
+                t = pa.aperture_photometry(data, aper, wcs=w, error=error,
+                                           mask=mask)
+                pix = aper.to_pixel(w)
+                return t, pix.area
+            t = pa.aperture_photometry(data, aper, error=error, mask=mask,
+                                       method=['exact', 'center',
+                                               'subpixel'][o % 3])
+            st2 = pa.ApertureStats(data, aper, error=error, mask=mask)
+            return t, st2.sum, aper.to_sky(w).positions.ra.deg
+        return self._run(st, op, fn)
+
+    def _s_region_convert(self, st, op, data, mask, error):
+        from photutils.aperture import (aperture_to_region,
+                                        region_to_aperture, ApertureStats)
+        P = st.P
+        aper = P['aper'] if op['variant'] % 2 else P['ann']
+
+        def fn():
+            regs = aperture_to_region(aper)
+            back = [region_to_aperture(r) for r in regs]
+            s = ApertureStats(data, regs[0], error=error, mask=mask)
+            return len(back), s.sum
+        return self._run(st, op, fn)
+
+    def _s_poisson_noise(self, st, op, data, mask, error):
+        from photutils.datasets import apply_poisson_noise, make_noise_image
+        P = st.P
+        src = P['clean'] if op['data'] in ('nd', 'ma', 'ma0', 'q', 'view',
+                                           'int') else data
+        return self._run(st, op, lambda: apply_poisson_noise(
+            src, seed=op['variant']))
+
+    def _s_grid_from_epsfs(self, st, op, data, mask, error):
+        from photutils.psf import ImagePSF, grid_from_epsfs
+        P = st.P
+        if 'epsf0' not in P:
+            for k in range(4):
+                m = ImagePSF(P['psfimg'] * (1 + 0.1 * k),
+                             x_0=10.0 * (k % 2), y_0=12.0 * (k // 2))
+                P[f'epsf{k}'] = m
+                st.d0[f'epsf{k}'] = _digest_any(m)
+        models = [P[f'epsf{k}'] for k in range(4)]
+
+        def fn():
+            g = grid_from_epsfs(models)
+            yy, xx = np.mgrid[0:9, 0:9]
+            g.x_0, g.y_0 = 4.0, 5.0
+            return g(xx, yy)
+        return self._run(st, op, fn)
+
+    def _s_make_psf_model(self, st, op, data, mask, error):
+        from astropy.modeling.models import Gaussian2D
+        from photutils.psf import PSFPhotometry, make_psf_model
+        P = st.P
+        if 'g2d' not in P:
+            P['g2d'] = Gaussian2D(1.0, 0.0, 0.0, 1.3, 1.3)
+            st.d0['g2d'] = _digest_any(P['g2d'])
+
+        def fn():
+            m = make_psf_model(P['g2d'], x_name='x_mean', y_name='y_mean',
+                               normalize=bool(op['variant'] % 2))
+            ph = PSFPhotometry(m, 5, aperture_radius=4)
+            return ph(P['clean'], init_params=P['init'])
+        return self._run(st, op, fn)
+
+    def _s_ellipse_sample(self, st, op, data, mask, error):
+        from photutils.isophote import (EllipseGeometry, EllipseSample,
+                                        Isophote)
+        from photutils.isophote.fitter import EllipseFitter
+        P = st.P
+        src = P['clean'] if op['data'] in ('q', 'ma', 'ma0') else data
+
+        def fn():
+            g = EllipseGeometry(float(P['xpos'][0]), float(P['ypos'][0]),
+                                4.0, 0.2, 0.3)
+            smp = EllipseSample(src, 4.0, geometry=g)
+            smp.update(g.fix)
+            iso = EllipseFitter(smp).fit(maxit=5)
+            return iso.intens, iso.eps
+        return self._run(st, op, fn)
+
+    def _s_psf_models_phot(self, st, op, data, mask, error):
+        import photutils.psf as pp
+        P = st.P
+        v = op['variant']
+        if 'psfm0' not in P:
+            models = [pp.GaussianPRF(x_fwhm=3.0, y_fwhm=2.5, theta=10),
+                      pp.GaussianPSF(x_fwhm=3.0, y_fwhm=3.0),
+                      pp.CircularGaussianPSF(fwhm=3.0),
+                      pp.CircularGaussianSigmaPRF(sigma=1.3),
+                      pp.MoffatPSF(alpha=3.0, beta=2.5),
+                      pp.AiryDiskPSF(radius=3.0)]
+            models[0].x_fwhm.fixed = False
+            models[4].alpha.bounds = (1.0, 6.0)
+            for k, m in enumerate(models):
+                P[f'psfm{k}'] = m
+                st.d0[f'psfm{k}'] = _digest_any(m)
+        model = P[f'psfm{v}']
+
+        def fn():
+            ph = pp.PSFPhotometry(model, 5, aperture_radius=4,
+                                  grouper=pp.SourceGrouper(4)
+                                  if op.get('opt', 0) % 2 else None)
+            t = ph(data, mask=mask, error=error, init_params=P['init'])
+            return t, ph.make_model_image((30, 32))
+        return self._run(st, op, fn)
+
+    def _s_params_to_models(self, st, op, data, mask, error):
+        from photutils.datasets import (make_model_params,
+                                        params_table_to_models)
+        P = st.P
+        m = P['imodel'] if op['variant'] % 2 else P['model']
+
+        def fn():
+            ms = params_table_to_models(P['params'], m)
+            ms[0].flux = 3.0
+            make_model_params((30, 32), 3, flux=(1, 5), seed=op['variant'])
+            return len(ms)
+        return self._run(st, op, fn)
 
     # lazily evaluated properties / later calls of retained objects
     def _s_actor_read(self, st, op, data, mask, error):
